@@ -4,7 +4,7 @@ from ._lib import lib_run
 
 
 def run(tier, replay=None):
-    cells = cxx.QUICK_CELLS if tier == "quick" else cxx.FOUR_CELLS
+    cells = cxx.CODEC_CELLS if tier == "quick" else cxx.FOUR_CELLS
     cap = 4 if tier == "quick" else 5
     vs = []
     for cell in cells:
